@@ -413,6 +413,14 @@ func phaseFamily(env *Env) error {
 				}
 				env.Emit(ce)
 			}
+			// and the reference `goalign phasent` detects by itself on these reads (same strand option)
+			po := phOpts{Reverse: oe.Reverse}
+			if pe, corf, ok := phasentCli(filepath.Dir(env.Out), oe.Seqs, nil, po, 2); ok && pe.Kind == "ok" && corf != nil {
+				pe.ID = id + ":orf-cli"
+				env.Emit(pe)
+				env.Emit(phEvent{T: "orf", ID: id + ":orf-cli-ref", Seqs: oe.Seqs, Refs: [][]int{}, Reverse: oe.Reverse, Results: []phResult{}, After: oe.Seqs,
+					Orf: corf, R1: []phResult{}, R2: []phResult{}, Kind: "ok", Msg: pe.Msg})
+			}
 		}
 	}
 	return nil
